@@ -61,8 +61,11 @@ def install(interp):
         A = i.load_module('dznpy.ast')
         kinds = [A.globals[n] for n in ('Component', 'Enum', 'Extern', 'Foreign', 'Interface', 'SubInt', 'System')]
         uni = i.make_union('Decl', kinds)
-        f = z3.Function('ghost.lookup', ids.expr.sort(), scope.expr.sort(), z3.SeqSort(uni['sort']))
-        return SeqV(i.seq_of_base(f(ids.expr, scope.expr), TypeDesc('union', uni), path), frozen=True)
+        zi, zs = i.to_z3(ids), i.to_z3(scope)
+        if zi is None or zs is None:
+            raise Unsupported('ghost lookup() of a name / scope that is not expressible')
+        f = z3.Function('ghost.lookup', zi.sort(), zs.sort(), z3.SeqSort(uni['sort']))
+        return SeqV(i.seq_of_base(f(zi, zs), TypeDesc('union', uni), path), frozen=True)
 
     interp.overrides['specs.ghost.lookup'] = lookup
     interp.overrides['specs.ghost.extern_of'] = extern_of
